@@ -212,8 +212,11 @@ def check_case(case):
                             expected=repr(a[k]), observed=repr(b[k]), repr=repr(s))
         sfmt = s._fmt or ''
         # the statement conditions the text round trip on the *text* only: the format spec may use any fill character
-        tame_text = all(c.isprintable() and c not in '{}:\\\'"' for c in text)
-        tame = tame_text and all(c.isprintable() and c not in '\\\'"' for c in sfmt)
+        # "control characters" are the characters of category Cc: a no-break space, a zero-width space, a line separator or an
+        # unassigned code point is not one (str.isprintable() rejects them all, which made this oracle weaker than the statement)
+        import unicodedata
+        tame_text = all(unicodedata.category(c) != 'Cc' and c not in '{}:\\\'"' for c in text)
+        tame = tame_text and all(unicodedata.category(c) != 'Cc' and c not in '\\\'"' for c in sfmt)
         if tame:
             if r.value != text:
                 return dict(bucket='repr-text', oracle='from_raw(repr(s)).value == text (tame text)',
